@@ -260,20 +260,35 @@ func Harness_C11_OperatorMinimum() {
 	e := verifStartOperator(root.WithWorkingDir("gen1"), nil, senders, 1, job, handler)
 	wm := make([]int64, n)
 	k := verif.Param("K", 3)
+	timers := verif.Param("TIMERS", 0) == 1
 	for step := 0; step < k; step++ {
 		s := verif.Choose("sender", n)
 		w := verif.I64("w")
 		verif.Assume(verif.And(w >= 0, w <= 1000))
 		wm[s] = w
+		wmCalls, wmExpired := len(handler.watermark), len(handler.expired)
 		err := e.op.HandleEvent(e.ctx, senders[s], &workerpb.Event{Event: &workerpb.Event_Watermark{Watermark: &workerpb.Watermark{Timestamp: &timestamppb.Timestamp{Seconds: w}}}})
 		verif.Assert(err == nil, "watermark-handled")
 		min := wm[0]
 		for _, x := range wm[1:] {
 			min = verif.IteI64(x < min, x, min)
 		}
+		// TIMERS: every keyed event registers a timer for its key (steps use different keys and
+		// times); the calls made while the due timers are drained are told the new minimum, and
+		// no timer later than it fires
+		for j := wmCalls; j < len(handler.watermark); j++ {
+			verif.Assert(handler.watermark[j].GetSeconds() == min, "handler-told-the-minimum-while-timers-expire")
+		}
+		for j := wmExpired; j < len(handler.expired); j++ {
+			verif.Assert(handler.expiredAt[j] <= min, "no-timer-later-than-the-minimum-fires")
+			verif.Assert(handler.expiredAt[j] <= handler.expiredTold[j], "no-timer-later-than-the-watermark-the-handler-is-told")
+		}
+		if timers {
+			handler.timerAt = int64(300 + 200*step)
+		}
 		// an event makes the handler run: it must be told the minimum
 		before := len(handler.watermark)
-		verif.Assert(e.op.HandleEvent(e.ctx, senders[s], verifKeyed([]byte("k1"), []byte{1}, step)) == nil, "event-handled")
+		verif.Assert(e.op.HandleEvent(e.ctx, senders[s], verifKeyed([]byte{'k', byte('1' + step)}, []byte{1}, step)) == nil, "event-handled")
 		verif.Assert(len(handler.watermark) == before+1, "handler-invoked")
 		if len(handler.watermark) == before+1 {
 			got := handler.watermark[before]
